@@ -85,8 +85,8 @@ def examples():
 
 
 def run(ctx):
-    H = 3 if ctx.quick else 5
-    progs = programs(ctx, 400 if ctx.quick else 3000)
+    H = 3 if ctx.quick else 4
+    progs = programs(ctx, 400 if ctx.quick else 1500)
     inputs = [[lang.prog_txt(p)] for p in progs]
     res = meta.answer_sets(ctx, inputs, H, atoms=True, keep_aux=True)
     cex, nontriv, fut = [], set(), 0
